@@ -88,12 +88,15 @@ def dispatchC15M (op : String) (j : Json) : M Json := do
         cls := cls, z := ← fRat j "z", isModelClass := ← fBool j "is_model", model := ← fStr j "model",
         nModels := ← fInt j "n_models", args := ← fArr j "args" >>= parseArgs }
       let keepNeg ← fBool j "keep_neg"
+      let conserve := match fOpt j "ztype" with
+        | some (.str "conserve_flux") => true
+        | _ => false
       let xs ← fRats j "xs"
       let pa := processArgs E.P E.T Generated.modelParamTable Generated.modelFconvWav r
       let b := construct E.P E.T Generated.modelParamTable Generated.modelFconvWav keepNeg r
       let samples : Except Err (List Rat) := do
         let bb ← b
-        xs.mapM (sampleAt E C r.z bb)
+        xs.mapM (sampleAtType E C conserve r.z bb)
       pure (Json.mkObj [("args", outcome jArgs pa), ("built", outcome jBuilt b),
                         ("samples", outcome jRats samples)])
   | "c15_tables" =>
